@@ -267,6 +267,8 @@ def run(ctx):
         return []
 
     def on_stmt(node, st):
+        if isinstance(node, (ast.If, ast.While, ast.For, ast.AsyncFor, ast.Try, ast.With, ast.AsyncWith)):
+            return []          # (the statements inside are visited on their own paths)
         if any(isinstance(c, ast.Call) and attr_call(c, "_connect") for c in ast.walk(node)):
             return ["conn_ok"]
         return []
@@ -277,6 +279,34 @@ def run(ctx):
     for n in stmts_with_write:
         ctx.ob("C08.d", send.qual, "conn_ok" in ea.at[n], "every transmission is preceded by `_alive` being true or a fresh _connect()", func=send.qual,
                file=file, node=n, fail="send() can write without having checked the connection / reconnected: after a failed exchange the next one fails too")
+    # the same before a handshake: LAN.authenticate offers it on a connection it found alive, or on a fresh one
+    la_ = ctx.fn(f"{LAN}.authenticate")
+    tl2 = term_lookup(prog, with_helpers(prog, la_))
+    from ..facts import alternatives as _alts
+    alive_t = ("attr", ("param", la_.params[0]), "_alive")
+
+    def on_branch2(test, truth, st):
+        if getattr(ea2, "in_assert", False):
+            return []
+        t = tl2(test)
+        if t is None:
+            return []
+        alts = _alts(strip(t), truth)
+
+        def is_v3(a):
+            a = strip(a)
+            return call_is(a, "isinstance") and strip(a[2][0]) == ("attr", ("param", la_.params[0]), "_protocol") and strip(a[2][1]) == ("global", "msmart.lan._LanProtocolV3")
+        if alts and all(any(strip(a) == alive_t for a in alt) and any(is_v3(a) for a in alt) for alt in alts):
+            return ["conn_ok"]          # found alive *and* speaking V3: no reconnect needed
+        return []
+    ea2 = EventAnalysis(must=True, on_stmt=on_stmt, on_branch=on_branch2)
+    run_events(prog, la_, ea2)
+    hs_stmts = [n for n in ea2.at if isinstance(n, ast.stmt) and not isinstance(n, (ast.While, ast.If, ast.Try, ast.For, ast.With, ast.AsyncWith, ast.AsyncFor)) and
+                any(isinstance(c, ast.Call) and attr_call(c, "_protocol", "authenticate") for c in ast.walk(n))]
+    ctx.count("handshake_sites", len(hs_stmts))
+    for n in hs_stmts:
+        ctx.ob("C08.d", la_.qual, "conn_ok" in ea2.at[n], "every handshake is preceded by finding an alive V3 connection or by a fresh _connect()", func=la_.qual, file=file, node=n,
+               fail="authenticate() can offer the handshake on a connection it has not found alive (no reconnect): after a failed exchange the re-authentication fails too")
     alv = ctx.fn(f"{LAN}._alive")
     asum = summarize(prog, alv)
     tf = true_facts(asum)
